@@ -144,36 +144,36 @@ Print Assumptions C05_node_hash_values_are_translated.
    of them re-opens this property even if no sampled case shows a difference.  Rewritten by tools/pin_shapes.py on a tree on which every check passes. *)
 From Connectome Require GlueHashGen GlueFactoryGen.
 Theorem C05_mirrored_functions_are_the_pinned_ones :
-  GlueHashGen.shape_class_NodeHash = "f0232c87f36bf159" /\
-  GlueHashGen.shape_class_LeafHash = "05e80c5ad9a214f0" /\
-  GlueHashGen.shape_class_ApplyHash = "556e2ab8595eb443" /\
-  GlueHashGen.shape_class_GraphHash = "5654d0d1756d0a5c" /\
-  GlueHashGen.shape_class_CustomHash = "434a91b548cd8bbc" /\
-  GlueHashGen.shape_class_FunctionEdge = "17dc98d2e9afb7b6" /\
-  GlueHashGen.shape_class_ConstantEdge = "a5d6e9a227ce6207" /\
-  GlueHashGen.shape_class_ComputableHashBase = "70f75f27dd8924c3" /\
-  GlueHashGen.shape_class_External = "8a3fbf83cd7fba25" /\
-  GlueHashGen.shape_class_SimpleHash = "2e24eea69dec1725" /\
-  GlueHashGen.shape_class_SimpleHashEdge = "049321af3dcf3bc6" /\
-  GlueHashGen.shape_marker_getter = "6e1709ddfaa2cbe4" /\
-  GlueFactoryGen.shape_class_GraphFactory = "81497759c0671ad7" /\
-  GlueFactoryGen.shape_class_SourceFactory = "1808b21b3bce3951" /\
-  GlueFactoryGen.shape_class_TransformFactory = "c44de91624ae4321" /\
-  GlueFactoryGen.shape_add_from_mixins = "75970a13392501ac" /\
-  GlueFactoryGen.shape_is_detectable = "01389bb1efb83cb2" /\
-  GlueFactoryGen.shape_items_to_container = "f7b238bfe3e856c6" /\
-  GlueFactoryGen.shape_class_FunctionBase = "2a1e9fd23a29f19d" /\
-  GlueFactoryGen.shape_class_Function = "727356a49c35f2ce" /\
-  GlueFactoryGen.shape_class_FunctionWrapper = "20f303f31715c14d" /\
-  GlueFactoryGen.shape_class_Inverse = "d803d7d513cd3b06" /\
-  GlueFactoryGen.shape_class_Positional = "ff7f4bccfea673aa" /\
-  GlueFactoryGen.shape_class_Impure = "f33a1c51c28660a4" /\
-  GlueFactoryGen.shape_class_APIMeta = "d04e35766e894328" /\
-  GlueFactoryGen.shape_class_HashByValue = "16222fab9891d910" /\
-  GlueFactoryGen.shape_class_CombinedHashByValue = "a5203dcb1319f438" /\
-  GlueFactoryGen.shape_hash_by_value = "8a4ba5e0fdeb3b7c" /\
-  GlueFactoryGen.shape_class_NodeStorage = "6d3e8d03e5bc0ef6" /\
-  GlueFactoryGen.shape_replace_annotation = "1793c6c05b9f2740".
+  GlueHashGen.shape_class_NodeHash = "f0232c87f36bf159"%string /\
+  GlueHashGen.shape_class_LeafHash = "05e80c5ad9a214f0"%string /\
+  GlueHashGen.shape_class_ApplyHash = "556e2ab8595eb443"%string /\
+  GlueHashGen.shape_class_GraphHash = "5654d0d1756d0a5c"%string /\
+  GlueHashGen.shape_class_CustomHash = "434a91b548cd8bbc"%string /\
+  GlueHashGen.shape_class_FunctionEdge = "17dc98d2e9afb7b6"%string /\
+  GlueHashGen.shape_class_ConstantEdge = "a5d6e9a227ce6207"%string /\
+  GlueHashGen.shape_class_ComputableHashBase = "70f75f27dd8924c3"%string /\
+  GlueHashGen.shape_class_External = "8a3fbf83cd7fba25"%string /\
+  GlueHashGen.shape_class_SimpleHash = "2e24eea69dec1725"%string /\
+  GlueHashGen.shape_class_SimpleHashEdge = "049321af3dcf3bc6"%string /\
+  GlueHashGen.shape_marker_getter = "6e1709ddfaa2cbe4"%string /\
+  GlueFactoryGen.shape_class_GraphFactory = "81497759c0671ad7"%string /\
+  GlueFactoryGen.shape_class_SourceFactory = "1808b21b3bce3951"%string /\
+  GlueFactoryGen.shape_class_TransformFactory = "c44de91624ae4321"%string /\
+  GlueFactoryGen.shape_add_from_mixins = "75970a13392501ac"%string /\
+  GlueFactoryGen.shape_is_detectable = "01389bb1efb83cb2"%string /\
+  GlueFactoryGen.shape_items_to_container = "f7b238bfe3e856c6"%string /\
+  GlueFactoryGen.shape_class_FunctionBase = "2a1e9fd23a29f19d"%string /\
+  GlueFactoryGen.shape_class_Function = "727356a49c35f2ce"%string /\
+  GlueFactoryGen.shape_class_FunctionWrapper = "20f303f31715c14d"%string /\
+  GlueFactoryGen.shape_class_Inverse = "d803d7d513cd3b06"%string /\
+  GlueFactoryGen.shape_class_Positional = "ff7f4bccfea673aa"%string /\
+  GlueFactoryGen.shape_class_Impure = "f33a1c51c28660a4"%string /\
+  GlueFactoryGen.shape_class_APIMeta = "d04e35766e894328"%string /\
+  GlueFactoryGen.shape_class_HashByValue = "16222fab9891d910"%string /\
+  GlueFactoryGen.shape_class_CombinedHashByValue = "a5203dcb1319f438"%string /\
+  GlueFactoryGen.shape_hash_by_value = "8a4ba5e0fdeb3b7c"%string /\
+  GlueFactoryGen.shape_class_NodeStorage = "6d3e8d03e5bc0ef6"%string /\
+  GlueFactoryGen.shape_replace_annotation = "1793c6c05b9f2740"%string.
 Proof. repeat split; reflexivity. Qed.
 Print Assumptions C05_mirrored_functions_are_the_pinned_ones.
 (* END PINNED FINGERPRINTS *)
